@@ -1,3 +1,140 @@
+/-
+  C01 — stepping a script follows Bitcoin's script rules at every operation.
+  Property theorems only.  `Spec.evalScript` is the specification (Bitcoin's rules for one script on
+  an initial stack); the model is the debugger session.  All statements are for every script (any
+  length), initial stack, flag set (a natural-number bit mask), signature version and checker.
+-/
 import Btcdeb
+import BtcdebProofs.Refine.Run
+import BtcdebProofs.Properties.Tables
 namespace Btcdeb.Proofs.C01
+open Btcdeb Btcdeb.Model Btcdeb.Refine
+
+/-- the specification state a session starts from -/
+def initSt (stack : List Bytes) (script : Bytes) (ed : ExecData) : Spec.St :=
+  { stack := stack.reverse, codeFrom := script, codesepPos := ed.codesepPos, weightLeft := ed.weightLeft, weightInit := ed.weightInit }
+
+/-- `HasValidOps`, the gate every script passes before a session exists, is exactly the domain of the
+    property: every byte decodes, opcodes are defined, pushes are at most 520 bytes -/
+theorem gate_is_domain (s : Bytes) : hasValidOps s = Spec.inDomain Gen.MAX_OPCODE s := by
+  have key : ∀ (fuel : Nat) (s : Bytes), s.length ≤ fuel →
+      hasValidOps s = ((Spec.decodePrefix fuel s).2 &&
+        (Spec.decodePrefix fuel s).1.all (fun p => decide (p.1.opcode ≤ Gen.MAX_OPCODE) && decide (p.1.data.length ≤ Spec.maxElementSize))) := by
+    intro fuel
+    induction fuel with
+    | zero =>
+      intro s hs
+      have : s = [] := List.length_eq_zero_iff.mp (by omega)
+      subst this
+      rw [hasValidOps]; simp [getOp, Spec.decodePrefix]
+    | succ fuel ih =>
+      intro s hs
+      cases hs' : s with
+      | nil => rw [hasValidOps]; simp [getOp, Spec.decodePrefix]
+      | cons b rest =>
+        rw [← hs']
+        have hgo := getOp_decodeOne s
+        rw [hasValidOps]
+        have hdp : Spec.decodePrefix (fuel + 1) s =
+            match Spec.decodeOne s with
+            | none => ([], false)
+            | some (i, after) => ((i, after) :: (Spec.decodePrefix fuel after).1, (Spec.decodePrefix fuel after).2) := by
+          rw [hs']; simp only [Spec.decodePrefix]
+          cases Spec.decodeOne (b :: rest) with
+          | none => rfl
+          | some p => rfl
+        rw [hdp]
+        cases hg : getOp s with
+        | none =>
+          rw [hg] at hgo
+          simp only [Option.map_none] at hgo
+          rw [← hgo]; simp [hs']
+        | some g =>
+          rw [hg] at hgo
+          simp only [Option.map_some] at hgo
+          rw [← hgo]
+          have hlt := getOp_rest_lt hg
+          have h520 : Gen.MAX_SCRIPT_ELEMENT_SIZE = Spec.maxElementSize := by decide
+          simp only [h520, List.all_cons]
+          rw [ih g.rest (by omega)]
+          by_cases h1 : g.opcode > Gen.MAX_OPCODE
+          · have : ¬ g.opcode ≤ Gen.MAX_OPCODE := by omega
+            simp [h1, this]
+          · by_cases h2 : g.data.length > Spec.maxElementSize
+            · have : ¬ g.data.length ≤ Spec.maxElementSize := by omega
+              simp [h2, this]
+            · have h1' : g.opcode ≤ Gen.MAX_OPCODE := by omega
+              have h2' : g.data.length ≤ Spec.maxElementSize := by omega
+              simp [h1, h2, h1', h2']
+  unfold Spec.inDomain Spec.decode Spec.decodeWithRest
+  rw [key s.length s (Nat.le_refl _)]
+  cases hd : (Spec.decodePrefix s.length s).2
+  · simp only [Bool.false_and, hd, Bool.false_eq_true, if_false, Option.map_none]
+  · simp only [Bool.true_and, hd, if_true, Option.map_some, List.all_map]; rfl
+
+/-- a script outside the domain is refused before execution (`Instance::parse_script` returns false) -/
+theorem C01_refused (s : Bytes) (h : Spec.inDomain Gen.MAX_OPCODE s = false) : hasValidOps s = false := by
+  rw [gate_is_domain]; exact h
+
+/-- legacy and segwit-v0 scripts above 10,000 bytes are refused by the session constructor and by the
+    specification alike; tapscript is exempt -/
+theorem C01_script_size (stack : List Bytes) (script : Bytes) (flags : Nat) (sv : SigVersion) (succ : Bytes) (z : Bool)
+    (ed : ExecData) (tce : Option Tce) (pm : List (Bytes × Bytes)) (pk : List Bytes) :
+    (sv ≠ .TAPSCRIPT ∧ script.length > Spec.maxScriptSize) ↔
+      setupEnvironment stack script flags sv succ z ed tce pm pk = .error .SCRIPT_SIZE := by
+  have h10k : Gen.MAX_SCRIPT_SIZE = Spec.maxScriptSize := by decide
+  unfold setupEnvironment IEnv.init
+  rw [h10k]
+  constructor
+  · rintro ⟨h1, h2⟩
+    have : (sv != SigVersion.TAPSCRIPT && decide (script.length > Spec.maxScriptSize)) = true := by
+      simp [h1, h2]
+    simp [this]
+  · intro h
+    by_cases hc : (sv != SigVersion.TAPSCRIPT && decide (script.length > Spec.maxScriptSize)) = true
+    · simp at hc; exact ⟨hc.1, hc.2⟩
+    · simp only [hc, Bool.false_eq_true, if_false] at h
+      split at h <;> simp at h
+
+/-- MAIN THEOREM (stepping).  For a session set up on one script (no scriptPubKey successor, no taproot
+    commitment phase, not a P2SH hand-over), stepping operation by operation visits exactly the states
+    Bitcoin's rules prescribe — main stack, alt stack, conditional nesting, operation count, code-separator
+    bookkeeping, signature budget, after every operation — and stops with the same outcome: the same
+    error at the same operation (a C++ exception being SCRIPT_ERR_UNKNOWN_ERROR), never abnormally. -/
+theorem C01_trace (cx : Ctx) (tc : TapCtx) (cfg : Spec.Cfg)
+    (stack : List Bytes) (script : Bytes) (flags : Nat) (sv : SigVersion) (z : Bool) (ed : ExecData)
+    (pm : List (Bytes × Bytes)) (e0 : IEnv)
+    (hsetup : setupEnvironment stack script flags sv [] z ed none pm (pm.map (·.2)) = .ok e0)
+    (hc : CfgRel cx e0.see cfg)
+    (hw : sv = .TAPSCRIPT → ed.weightInit = true) :
+    RelRun (runOps cx tc script.length e0)
+      (Spec.evalInstrs cfg (Spec.decodePrefix script.length script).1 0 (initSt stack script ed))
+      (Spec.decodePrefix script.length script).2 := by
+  -- what `setup_environment` produced
+  unfold setupEnvironment IEnv.init at hsetup
+  split at hsetup
+  · cases hsetup
+  · rename_i e hinit
+    split at hinit
+    · cases hinit
+    · cases hinit
+      split at hsetup
+      · cases hsetup
+      · cases hsetup
+        refine runOps_refines cx tc cfg script.length _ (initSt stack script ed) rfl (Nat.le_refl _) hc ?_ hw
+        constructor <;> simp [initSt, condRel_empty]
+
+/-- after the last operation, the end-of-script step succeeds exactly when no conditional is open;
+    it changes nothing but the `done` flag -/
+theorem C01_end_step (cx : Ctx) (tc : TapCtx) (e : IEnv) (st : Spec.St) (h : Rel e.see st)
+    (hpc : e.pc = []) (ht : e.tce = none) (hp : e.isP2sh = false) (hs : e.successor = []) :
+    (st.cond.isEmpty = true → stepSession cx tc e = .ok { e with done := true }) ∧
+    (st.cond.isEmpty = false → stepSession cx tc e = fail .UNBALANCED_CONDITIONAL) := by
+  have hce := condRel_isEmpty h.cond
+  unfold stepSession
+  simp only [ht, hpc, List.isEmpty_nil, Bool.not_true, Bool.false_eq_true, if_false, hp, hs]
+  constructor
+  · intro hemp; simp [hce, hemp]; rfl
+  · intro hne; simp [hce, hne]
+
 end Btcdeb.Proofs.C01
